@@ -35,6 +35,16 @@ extern int g_view_n;                    /* number of MPI_File_set_view calls */
 extern int g_view_fail_at;              /* index of the set_view call that fails (-1: none) */
 extern int g_sync_fail;                 /* MPI_File_sync fails */
 
+/* ---- file content model (C04, C19): when g_file_mode is set, reads deliver the bytes of g_file
+ * (a file of g_file_len bytes); a read beyond the end is short and MPI_Get_count says so ---- */
+#ifndef G_FILE_MAX
+#define G_FILE_MAX 128
+#endif
+extern unsigned char g_file[G_FILE_MAX];
+extern long long g_file_len;
+extern int g_file_mode;
+extern long long g_last_got;
+
 /* ---- process / agreement model ---- */
 extern int g_rank, g_nprocs;            /* harness sets: 0 <= g_rank < g_nprocs */
 extern long long g_agreed_ll[G_COLL_MAX]; /* value every rank receives from the i-th collective (MAX/MIN/Bcast) */
